@@ -154,6 +154,13 @@ class FloatLiteral(FilterExpressionLiteral[float]):
 
     __slots__ = ()
 
+    def __str__(self) -> str:
+        s = repr(self.value).lower()
+        if "e" in s and "." not in s and "e-" not in s:
+            # Keep it a float. `5e+20` would be read back as an integer literal.
+            s = s.replace("e", ".0e")
+        return s
+
 
 class NullLiteral(FilterExpressionLiteral[None]):
     """A null literal."""
